@@ -372,6 +372,8 @@ def spec_ok(c, i, s):
         return True
     if s == "(L (N 1))":
         return i.startswith("(L (N 1) ")
+    if s.startswith("(L (N 1) "):
+        return i == s           # the segmentation-blind specification names the error class
     if c.comp == "h1.request":
         xs = kv.xparse(s)
         xi = kv.xparse(i)
